@@ -310,6 +310,8 @@ var c20ArgVals = []c20Arg{
 	// falsy and empty members keep their place
 	{`{a: nil, b: 1, c: "", d: 0, e: false, f: [], g: {}}`, map[string]any{"a": nil, "b": int64(1), "c": "", "d": int64(0), "e": false, "f": []any{}, "g": map[string]any{}}},
 	{`[{k: nil}, [nil], 0, ""]`, []any{map[string]any{"k": nil}, []any{nil}, int64(0), ""}},
+	// a string literal with HTML-special characters: the function is to receive the text as written
+	{`"<b>&"`, "<b>&"},
 }
 
 var c20ArrResults = []any{
@@ -644,7 +646,7 @@ func init() {
 	p := &Property{
 		ID:    "C20",
 		Level: "model_checking",
-		Rule:  "explicit-state breadth-first search over histories of {Register{Str,Arr,Int,Float,Bool}Func(name, variant A|B) for names f, len (thorough: g), Call(type, name, literal | variable receiver), Load templates (later calls go through Template.String)} from a fresh package state, deduplicated by the deep hash of the package-level registry (+ loaded flag), run in lock step with a reference registry map[type]map[name]variant: first registration wins, later ones fail and change nothing, types are independent, a built-in of the same name takes precedence, an unregistered name is an error naming the function and the receiver type; after every step the names in the implementation's registry are read out and compared with the model's (conformance binding). Plus the conversion product: every argument tuple of length <=2 from 14 values (nested arrays/objects) and every result value, recorded inside the custom function and compared with the expected Go natives; the printed result must equal printing the same Go value passed as data",
+		Rule:  "explicit-state breadth-first search over histories of {Register{Str,Arr,Int,Float,Bool}Func(name, variant A|B) for names f, len (thorough: g), Call(type, name, literal | variable receiver), Load templates (later calls go through Template.String)} from a fresh package state, deduplicated by the deep hash of the package-level registry (+ loaded flag), run in lock step with a reference registry map[type]map[name]variant: first registration wins, later ones fail and change nothing, types are independent, a built-in of the same name takes precedence, an unregistered name is an error naming the function and the receiver type; after every step the names in the implementation's registry are read out and compared with the model's (conformance binding). Plus the conversion product: every argument tuple of length <=2 from 15 values (nested arrays/objects) and every result value, recorded inside the custom function and compared with the expected Go natives; the printed result must equal printing the same Go value passed as data",
 		Bounds: func(tier string) map[string]any {
 			if tier == "thorough" {
 				return map[string]any{"operations_3_names": len(c20Ops(true)), "history_depth_3_names": 4, "operations_2_names": len(c20Ops(false)), "history_depth_2_names": 5, "arg_values": len(c20ArgVals)}
